@@ -1,9 +1,9 @@
 ------------------------------- MODULE C15_Sat -------------------------------
 (* S-specification for C15 (SAT part): what a verdict and a certificate ARE.              *)
-(*   input space : every CNF of the universe is an initial state (clauses are literal      *)
-(*                 SEQUENCES in shape "seq": duplicated / complementary literals, the      *)
-(*                 empty clause and the empty CNF are all included; shape "set": all       *)
-(*                 sets of <= MaxClauses distinct clauses over NVars variables)            *)
+(*   input space : every CNF of the universe Parts is an initial state (shape "seq":       *)
+(*                 clauses are literal SEQUENCES, so duplicated / complementary literals,  *)
+(*                 the empty clause and the empty CNF are all included; shape "set": all   *)
+(*                 sets of <= k distinct clauses of distinct literals over n variables)    *)
 (*   state       : cnf, derived (clauses derived so far, with ids), prf (their provenance  *)
 (*                 in the certificate format of sat.solve_cnf), saturated, mark            *)
 (*   action      : Saturate -- add every resolvent of two derived clauses (reference       *)
@@ -16,19 +16,33 @@
 (* The universe is written as vectors (POSTCONDITION Emit) and replayed into solve_cnf.   *)
 EXTENDS C15_SatCore, SequencesExt, FiniteSetsExt, Json, IOUtils
 
-CONSTANTS NVars, MaxLen, MaxClauses, Shape
+CONSTANTS Parts     \* set of <<shape, number of variables, max literals per clause, max clauses>>, shape "seq" | "set" | "setc"
 
-VarIds == 1..NVars
-Lits == { <<v, b>> : v \in VarIds, b \in BOOLEAN }
+\* the universes used by the check (cfg: Parts <- ...)
+PartsQuick == { <<"seq", 2, 2, 3>>,      \* 2 vars, clauses = literal sequences of length <= 2, <= 3 clauses  (9 724)
+                <<"setc", 3, 3, 3>>,     \* 3 vars, all sets of <= 3 clauses of <= 3 distinct literals, one representative
+                                         \* per renaming of the variables (variables first occur in the order 1, 2, 3)  (2 439)
+                <<"set", 2, 2, 6>> }     \* 2 vars, all sets of <= 6 clauses of <= 2 distinct literals        (1 486)
+PartsSeq2x == { <<"seq", 2, 2, 4>> }     \* (204 205)
+PartsSet3x == { <<"setc", 3, 3, 4>> }    \* 3 vars, all sets of <= 4 clauses of <= 3 distinct literals up to renaming (of 124 314)
+PartsSeq3 == { <<"seq", 3, 2, 3>>, <<"set", 2, 2, 6>> }     \* (81 400 + 1 486)
+
+Lits(nv) == { <<v, b>> : v \in 1..nv, b \in BOOLEAN }
 LitLess(a, b) == a[1] < b[1] \/ (a[1] = b[1] /\ ~a[2] /\ b[2])
-SeqClauses == UNION { [1..n -> Lits] : n \in 0..MaxLen }
-SetClauses == { SetToSortSeq(S, LitLess) : S \in UNION { kSubset(n, Lits) : n \in 0..MaxLen } }
-ClauseList == SetToSeq(SetClauses)
+SeqClauses(nv, ml) == UNION { [1..n -> Lits(nv)] : n \in 0..ml }
+SetClauses(nv, ml) == { SetToSortSeq(S, LitLess) : S \in UNION { kSubset(n, Lits(nv)) : n \in 0..ml } }
 SortedIdx(I) == SetToSortSeq(I, LAMBDA a, b : a < b)
-SeqCNFs == UNION { [1..n -> SeqClauses] : n \in 0..MaxClauses }
-SetCNFs == UNION { { LET ix == SortedIdx(I) IN [j \in 1..n |-> ClauseList[ix[j]]] : I \in kSubset(n, 1..Len(ClauseList)) }
-                   : n \in 0..MaxClauses }
-CNFs == IF Shape = "seq" THEN SeqCNFs ELSE SetCNFs
+SeqCNFs(nv, ml, mc) == LET cs == SeqClauses(nv, ml) IN UNION { [1..n -> cs] : n \in 0..mc }
+SetCNFs(nv, ml, mc) == LET cl == SetToSeq(SetClauses(nv, ml)) IN
+                       UNION { { LET ix == SortedIdx(I) IN [j \in 1..n |-> cl[ix[j]]] : I \in kSubset(n, 1..Len(cl)) } : n \in 0..mc }
+\* variables in order of occurrence; canonical = each variable k > 1 first occurs after variable k - 1
+RECURSIVE VarSeq(_, _)
+VarSeq(cnf, k) == IF k > Len(cnf) THEN <<>> ELSE [i \in 1..Len(cnf[k]) |-> cnf[k][i][1]] \o VarSeq(cnf, k + 1)
+Canonical(cnf) == LET s == VarSeq(cnf, 1) IN \A i \in 1..Len(s) : s[i] > 1 => \E j \in 1..(i - 1) : s[j] = s[i] - 1
+PartCNFs(p) == CASE p[1] = "seq" -> SeqCNFs(p[2], p[3], p[4])
+                 [] p[1] = "set" -> SetCNFs(p[2], p[3], p[4])
+                 [] p[1] = "setc" -> { c \in SetCNFs(p[2], p[3], p[4]) : Canonical(c) }
+CNFs == UNION { PartCNFs(p) : p \in Parts }
 
 VARIABLES cnf, derived, prf, saturated, mark
 vars == <<cnf, derived, prf, saturated, mark>>
@@ -70,7 +84,7 @@ Next == Saturate
 Spec == Init /\ [][Next]_vars
 
 \* ---------------------------------------------------------------- properties
-ResolutionSound == \A C \in RangeS(derived) : \A m \in Models(cnf) : HoldsIn(C, m)
+ResolutionSound == LET M == Models(cnf) IN \A C \in RangeS(derived) : \A m \in M : HoldsIn(C, m)
 RefutationComplete == saturated => (({} \in RangeS(derived)) <=> ~Satisfiable(cnf))
 CertificateAccepted == (saturated /\ {} \in RangeS(derived)) => ValidRefutation(cnf, prf)
 CertificateOnlyIfUnsat == (saturated /\ ValidRefutation(cnf, prf)) => ~Satisfiable(cnf)
